@@ -344,9 +344,9 @@ Definition ext_close (tol : Q) (a b : ext) : bool :=
   | _, _ => ext_eqb a b
   end.
 
-Definition leaf_close (t : target) (o : obs_leaf) (s : cstate) : bool :=
+Definition leaf_close (tol : Q) (t : target) (o : obs_leaf) (s : cstate) : bool :=
   let '(x, r, l) := o in
-  ql_close tol9 x (map this (ps_x s)) && ql_close tol9 r (map this (ps_r s)) && ext_close tol9 l (c_lgd t s).
+  ql_close tol x (map this (ps_x s)) && ql_close tol r (map this (ps_r s)) && ext_close tol l (c_lgd t s).
 
 (* margins: every comparison the model made is decided by more than `marg` relative to the size of the
    numbers compared (so float rounding in the implementation cannot flip it); otherwise the case is
@@ -384,12 +384,14 @@ Definition check_transition (exact : bool) (t : target) (guard : bool) (max_dept
   | Some (tp, rest, log) =>
       let s0 := c_init t xq zq in
       let logu := ext_sub (c_ham t s0) (Fin e) in
+      (* exact cases: the implementation's arithmetic was exact, so its numbers must EQUAL the model's (tolerance 0) *)
+      let tol := if exact then 0 else tol9 in
       if negb exact && negb (margins_ok t logu tp log) then 1%nat
       else if (length o_leaves =? length (p_leaves tp))%nat
-              && forallb (fun os => leaf_close t (fst os) (snd os)) (combine o_leaves (p_leaves tp))
-              && ql_close tol9 o_point (map this (ps_x (p_cur tp)))
-              && ext_close tol9 o_logd (c_lgd t (p_cur tp))
-              && match o_grad with Some g => ql_close tol9 g (map this (ps_g (p_cur tp))) | None => true end
+              && forallb (fun os => leaf_close tol t (fst os) (snd os)) (combine o_leaves (p_leaves tp))
+              && ql_close tol o_point (map this (ps_x (p_cur tp)))
+              && ext_close tol o_logd (c_lgd t (p_cur tp))
+              && match o_grad with Some g => ql_close tol g (map this (ps_g (p_cur tp))) | None => true end
               && match o_acc with Some a => Bool.eqb a (p_acc tp) | None => true end
               && (o_nrand =? length log)%nat && (o_nlast =? length (p_last tp))%nat
               && (Z.of_nat o_nlast =? p_an tp)%Z
